@@ -167,7 +167,14 @@ func HMuxInfoRun() {
 // the unchanged payload.
 func HMuxWriter() {
 	ln := vparam("len")
-	p := nd_bytes(ln)
+	var p []byte
+	if ln <= 16 {
+		p = nd_bytes(ln)
+	} else {
+		// large payloads (a file chunk): concrete zeros with symbolic first and last byte
+		p = make([]byte, ln)
+		p[0], p[ln-1] = nd_u8(), nd_u8()
+	}
 	tag := nd_u8()
 	vassume(tag <= 2)
 	conn := newVconn(nil)
@@ -179,7 +186,11 @@ func HMuxWriter() {
 	vassert(len(out) == 4+ln, "frame length")
 	vassert(out[3] == mplexBase+tag, "tag byte")
 	vassert(int(out[0])|int(out[1])<<8|int(out[2])<<16 == ln, "length field")
-	vassert(eqBytes(out[4:], p), "payload unchanged")
+	if ln <= 16 {
+		vassert(eqBytes(out[4:], p), "payload unchanged")
+	} else if len(out) == 4+ln {
+		vassert(out[4] == p[0] && out[4+ln-1] == p[ln-1], "payload unchanged (ends)")
+	}
 	vreach("ok")
 }
 
